@@ -60,6 +60,91 @@ enum Ty {
     A4k,
     Pd,
     Pdb,
+    Tok,
+    VecT,
+    Lease,
+    En,
+}
+
+// ---- results whose `Option::None` is NOT the all-zero pattern (niche in a field) ----
+
+/// counts its destructor runs per id; id 0 is never made
+struct Token {
+    live: bool,
+    id: u32,
+}
+static TOK_MADE: [AtomicU32; MAXN] = [const { AtomicU32::new(0) }; MAXN];
+static TOK_DROPS: [AtomicU32; MAXN] = [const { AtomicU32::new(0) }; MAXN];
+/// [made, dropped, dropped with id 0 (a value nobody made), dropped with live == false]
+static TOK_TOTAL: [AtomicU32; 4] = [const { AtomicU32::new(0) }; 4];
+impl Drop for Token {
+    fn drop(&mut self) {
+        if self.id == 0 {
+            TOK_TOTAL[2].fetch_add(1, SeqCst);
+        } else if !self.live {
+            TOK_TOTAL[3].fetch_add(1, SeqCst);
+        } else {
+            TOK_TOTAL[1].fetch_add(1, SeqCst);
+            TOK_DROPS[(self.id as usize - 1) % MAXN].fetch_add(1, SeqCst);
+        }
+    }
+}
+fn mk_tok(t: u64) -> Token {
+    TOK_TOTAL[0].fetch_add(1, SeqCst);
+    TOK_MADE[t as usize % MAXN].fetch_add(1, SeqCst);
+    Token {
+        live: true,
+        id: (t % 0xffff_fff0) as u32 + 1,
+    }
+}
+fn mk_vec(t: u64) -> alloc::vec::Vec<u8> {
+    let mut v = alloc::vec::Vec::with_capacity(16);
+    for i in 0..12u64 {
+        v.push((t * 3 + i * 5 + 2) as u8);
+    }
+    v
+}
+struct Lease {
+    b: Box<u64>,
+    armed: bool,
+}
+fn mk_lease(t: u64) -> Lease {
+    Lease {
+        b: Box::new(v64(t).wrapping_add(11)),
+        armed: true,
+    }
+}
+#[derive(Copy, Clone)]
+enum Color {
+    Red,
+    Green,
+    Blue,
+}
+fn mk_en(t: u64) -> Color {
+    match t % 3 {
+        0 => Color::Red,
+        1 => Color::Green,
+        _ => Color::Blue,
+    }
+}
+
+fn tok_report(n: usize) {
+    for o in 0..n {
+        let slot = o % MAXN;
+        let (m, d) = (TOK_MADE[slot].load(SeqCst), TOK_DROPS[slot].load(SeqCst));
+        if m != 0 || d != 0 {
+            out::line("tok", &[o as u64, m as u64, d as u64]);
+        }
+    }
+    out::line(
+        "toktotal",
+        &[
+            TOK_TOTAL[0].load(SeqCst) as u64,
+            TOK_TOTAL[1].load(SeqCst) as u64,
+            TOK_TOTAL[2].load(SeqCst) as u64,
+            TOK_TOTAL[3].load(SeqCst) as u64,
+        ],
+    );
 }
 
 /// over-aligned results whose LAST bytes are significant
@@ -150,6 +235,10 @@ enum Hd {
     A4k(JoinHandle<A4k>),
     Pd(JoinHandle<PanicOnDrop>),
     Pdb(JoinHandle<PanicOnDropBox>),
+    Tok(JoinHandle<Token>),
+    VecT(JoinHandle<alloc::vec::Vec<u8>>),
+    Lease(JoinHandle<Lease>),
+    En(JoinHandle<Color>),
 }
 
 #[derive(Copy, Clone)]
@@ -294,6 +383,8 @@ fn spawn_one(slot: usize, tag: u64, sp: Spec, hold: u8) -> tiny_std::Result<Hd> 
     RUNS[slot].store(0, SeqCst);
     CL_TID[slot].store(0, SeqCst);
     GO[slot].store(0, SeqCst);
+    TOK_MADE[slot].store(0, SeqCst);
+    TOK_DROPS[slot].store(0, SeqCst);
     unsafe {
         (core::ptr::addr_of_mut!(EFFECT) as *mut u64).add(slot).write(0);
     }
@@ -312,6 +403,10 @@ fn spawn_one(slot: usize, tag: u64, sp: Spec, hold: u8) -> tiny_std::Result<Hd> 
         Ty::A4k => Hd::A4k(spawn(move || body(slot, tag, p, hold, mk_a4k))?),
         Ty::Pd => Hd::Pd(spawn(move || body(slot, tag, p, hold, mk_pd))?),
         Ty::Pdb => Hd::Pdb(spawn(move || body(slot, tag, p, hold, mk_pdb))?),
+        Ty::Tok => Hd::Tok(spawn(move || body(slot, tag, p, hold, mk_tok))?),
+        Ty::VecT => Hd::VecT(spawn(move || body(slot, tag, p, hold, mk_vec))?),
+        Ty::Lease => Hd::Lease(spawn(move || body(slot, tag, p, hold, mk_lease))?),
+        Ty::En => Hd::En(spawn(move || body(slot, tag, p, hold, mk_en))?),
     })
 }
 
@@ -348,6 +443,10 @@ fn join_digest(h: Hd) -> Option<u64> {
         // the joiner owns the value now; running its panicking destructor is the caller's business
         Hd::Pd(h) => h.join().map(|v| fnv(&v.disarm().to_le_bytes(), FNV0)),
         Hd::Pdb(h) => h.join().map(|v| fnv(&v.disarm().to_le_bytes(), FNV0)),
+        Hd::Tok(h) => h.join().map(|v| fnv(&[u8::from(v.live)], fnv(&v.id.to_le_bytes(), FNV0))),
+        Hd::VecT(h) => h.join().map(|v| fnv(&v, FNV0)),
+        Hd::Lease(h) => h.join().map(|v| fnv(&[u8::from(v.armed)], fnv(&(*v.b).to_le_bytes(), FNV0))),
+        Hd::En(h) => h.join().map(|v| fnv(&[v as u8], FNV0)),
     }
 }
 
@@ -409,6 +508,10 @@ fn parse_spec(s: &str) -> Option<Spec> {
         "a4k" => Ty::A4k,
         "pd" => Ty::Pd,
         "pdb" => Ty::Pdb,
+        "tok" => Ty::Tok,
+        "vec" => Ty::VecT,
+        "lease" => Ty::Lease,
+        "en" => Ty::En,
         _ => return None,
     };
     let kind = it.next()?.as_bytes();
@@ -538,6 +641,7 @@ fn final_report(alive: usize) {
         out::nl();
     }
     out::line("alive", &[alive as u64]);
+    tok_report(ctl::n_threads());
     ctl::dump();
     snapshot("end", Some("maps1"));
     galloc::dump(false);
@@ -817,6 +921,7 @@ fn mode_hist(args: &[&str]) -> i32 {
         out::nl();
     }
     out::line("hist", &[ordinal as u64, bad_runs, bad_join, hangs]);
+    tok_report(if log { core::cmp::min(ordinal, MAXN) } else { 0 });
     tiny_std::verif::set_gate_fn(None);
     if log {
         out::line("alive", &[0]);
@@ -945,6 +1050,7 @@ fn mode_race(args: &[&str]) -> i32 {
             out::nl();
         }
         out::line("alive", &[hangs]);
+        tok_report(nb as usize);
         ctl::dump_ids();
         snapshot("end", None);
         galloc::dump(false);
